@@ -146,6 +146,12 @@ def _tuple_items(e):
 class _Canon(ast.NodeTransformer):
     def visit_Call(self, node):
         self.generic_visit(node)
+        # functools.partial(f, *a, **kw)(*b, **kw2) == f(*a, *b, **kw, **kw2)
+        if isinstance(node.func, ast.Call) and ast.unparse(node.func.func) in ("functools.partial", "partial") and node.func.args:
+            inner = node.func
+            kws = {k.arg: k for k in inner.keywords}
+            kws.update({k.arg: k for k in node.keywords})
+            node = ast.Call(func=inner.args[0], args=list(inner.args[1:]) + list(node.args), keywords=list(kws.values()))
         f = ast.unparse(node.func)
         # len(x.shape), x.dim() -> x.ndim ; x.size(i) -> x.shape[i]
         if f == "len" and len(node.args) == 1 and isinstance(node.args[0], ast.Attribute) and node.args[0].attr == "shape":
@@ -236,6 +242,43 @@ def negate(cond, plain=False):
 def canon(expr):
     expr = _Canon().visit(copy.deepcopy(expr))
     return ast.fix_missing_locations(expr)
+
+
+def keywords_by_signature(expr, tree):
+    """calls of module-level functions of `tree`: positional arguments after the first become keyword arguments, keywords in
+    signature order (f(x, s, resolution=r) == f(x, scaling_factors=s, resolution=r))"""
+    funcs = {n.name: n for n in tree.body if isinstance(n, ast.FunctionDef)}
+
+    class K(ast.NodeTransformer):
+        def visit_Call(self, node):
+            self.generic_visit(node)
+            if isinstance(node.func, ast.Name) and node.func.id in funcs and not any(isinstance(a, ast.Starred) for a in node.args) \
+                    and all(k.arg is not None for k in node.keywords):
+                fn = funcs[node.func.id]
+                params = [a.arg for a in fn.args.args]
+                if len(node.args) > len(params) or fn.args.vararg:
+                    return node
+                kws = {k.arg: k.value for k in node.keywords}
+                for p, a in zip(params[1:], node.args[1:]):
+                    if p in kws:
+                        return node
+                    kws[p] = a
+                order = {p: i for i, p in enumerate(params)}
+                node.args = node.args[:1]
+                node.keywords = [ast.keyword(arg=k, value=v) for k, v in sorted(kws.items(), key=lambda kv: order.get(kv[0], 99))]
+            return node
+    return ast.fix_missing_locations(K().visit(copy.deepcopy(expr)))
+
+
+def assume(expr, cond_text: str, value: bool = True):
+    """simplify conditional expressions whose test is `cond_text`, known to be `value` in this context"""
+    class A(ast.NodeTransformer):
+        def visit_IfExp(self, node):
+            self.generic_visit(node)
+            if ast.unparse(node.test) == cond_text:
+                return node.body if value else node.orelse
+            return node
+    return ast.fix_missing_locations(A().visit(copy.deepcopy(expr)))
 
 
 def norm_expr(expr, env=None, tree=None, depth=6) -> str:
